@@ -464,11 +464,17 @@ func (c *Ctx) isBuiltinNotification(v ssa.Value) bool {
 		if zeroFieldOrigin(o) {
 			continue
 		}
+		if k, isK := o.Root.(*ssa.Const); isK && k.Value == nil && len(o.Fields) > 0 {
+			continue
+		}
 		if len(o.Fields) != 0 || !isNilConst(o.Root) {
 			return false
 		}
 	}
 	for _, o := range ms {
+		if k, isK := o.Root.(*ssa.Const); isK && k.Value == nil && len(o.Fields) > 0 {
+			continue // the zero request a building helper returns next to its error
+		}
 		m, ok := constString(o.Root)
 		if len(o.Fields) != 0 || !ok || !strings.HasPrefix(m, "xrpc.") {
 			return false
